@@ -11,7 +11,7 @@ def pow2(n):
     while p < n: p <<= 1
     return p
 
-def tq(op, K, CAP, K2=0, CAP2=2, ARG=0, POST=0, HLIST=0, timeout=300, capmax=None, backend='sat'):
+def tq(op, K, CAP, K2=0, CAP2=2, ARG=0, POST=0, HLIST=0, timeout=300, capmax=None, backend='sat', OBS=15):
     """one table query; capmax = largest capacity any table can reach (bounds the storage / bucket loops)"""
     if capmax is None:
         capmax = max(pow2(max(CAP, 1)), 2)
@@ -21,10 +21,11 @@ def tq(op, K, CAP, K2=0, CAP2=2, ARG=0, POST=0, HLIST=0, timeout=300, capmax=Non
     S = capmax + 1
     L = K + K2 + 2
     b = {'build': max(K, K2) + 1, 'm_find|m_remove_at': L + 1, 'ref_cmp|IsEqual|IsLess|IsGreater': 3, 'Hash': 2,
-         'scan|ActualSize|resize|copyTable|generateHash|find|Dispose|operator\\+=|Sort': S, 'SetToZero': 4 * capmax + 1,
+         'find': K + 3, 'scan|ActualSize|resize|copyTable|generateHash|Dispose|operator\\+=|Sort': S, 'SetToZero': 4 * capmax + 1,
          'h_op': L + 1}   # h_op last: it also matches the C function every inlined loop lives in
     name = 'table/%s%s/K%d/cap%d' % ('hlist/' if HLIST else '', op, K, CAP)
-    d = {'OP': OPS[op], 'K': K, 'K2': K2, 'CAP': CAP, 'CAP2': CAP2, 'ARG': ARG, 'POST': POST, 'HLIST': HLIST}
+    d = {'OP': OPS[op], 'K': K, 'K2': K2, 'CAP': CAP, 'CAP2': CAP2, 'ARG': ARG, 'POST': POST, 'HLIST': HLIST, 'OBS': OBS}
+    if OBS != 15: name += '/obs%d' % OBS
     if K2: name += '/K2_%d/cap2_%d' % (K2, CAP2)
     if op in ('RESERVE', 'RESIZE', 'EXPECT'): name += '/arg%d' % ARG
     if POST: name += '/post'
@@ -33,6 +34,9 @@ def tq(op, K, CAP, K2=0, CAP2=2, ARG=0, POST=0, HLIST=0, timeout=300, capmax=Non
 def queries(tier):
     qs = []
     qs.append(tq('NONE', 2, 2))
+    for o in (0,1,2,4,8): qs.append(tq('NONE', 2, 2, OBS=o))
+    for o in (0,1,2,4,8): qs.append(tq('NONE', 3, 2, OBS=o))
+    for o in (0,1,2,4,8): qs.append(tq('NONE', 3, 4, OBS=o))
     qs.append(tq('NONE', 3, 2))
     qs.append(tq('INSERT', 2, 2))
     qs.append(tq('INSERT', 3, 2))
